@@ -71,10 +71,14 @@ pub fn gen(rng: &mut Rng, _tier: Tier) -> Scn {
         let v = *rng.pick(&big);
         offsets_s.push(if rng.chance(0.5) { v } else { -v });
     }
+    let check = rng.chance(0.85);
+    // with the check disabled expiry is ignored whatever the Expires value is, also one beyond the 32-bit NTP
+    // era (2036-02-07), which flute's sender writes for a lifetime of decades
+    let duration_s = if !check && rng.chance(0.3) { *rng.pick(&[400_000_000u64, 631_152_000, 3_155_760_000]) } else { duration_s };
     Scn {
         duration_s,
         sct: rng.chance(0.6),
-        check: rng.chance(0.85),
+        check,
         offsets_s,
         fdt_delay_us: *rng.pick(&[0u64, 1000, 500_000, 3_000_000, 30_000_000]),
         obj_gap_us,
